@@ -3,6 +3,7 @@ mod chain;
 mod concfam;
 mod crashfam;
 mod faultstore;
+mod httpsrv;
 mod cloudfam;
 mod cryptofam;
 mod dbhist;
@@ -39,6 +40,11 @@ impl log::Log for StderrLog {
 static LOGGER: StderrLog = StderrLog;
 
 fn main() {
+    // the HTTP backend talks to 127.0.0.1 only: no proxy from the environment
+    for v in ["http_proxy", "HTTP_PROXY", "https_proxy", "HTTPS_PROXY", "all_proxy", "ALL_PROXY"] {
+        std::env::remove_var(v);
+    }
+    std::env::set_var("NO_PROXY", "127.0.0.1,localhost");
     // git-backed servers are created below the work directory, which may itself lie inside a git
     // repository: stop git from discovering that one
     let base = std::env::var("TCVERIF_WORK").unwrap_or_else(|_| "/verif/work/tmp".to_string());
